@@ -38,6 +38,12 @@ fn is_ws(c: u8) -> bool {
 
 /// Lex the whole text; on a lexical fault returns the tokens so far and the fault.
 pub fn lex(text: &str) -> (Vec<Tok>, Option<LexFault>) {
+    lex_mode(text, false)
+}
+
+/// `strict`: a backslash followed by white space / end of text is a fault (the preprocessor's view);
+/// otherwise it is a punctuation token (line continuations in kept `define text)
+pub fn lex_mode(text: &str, strict: bool) -> (Vec<Tok>, Option<LexFault>) {
     let b = text.as_bytes();
     let n = b.len();
     let mut i = 0;
@@ -89,9 +95,13 @@ pub fn lex(text: &str) -> (Vec<Tok>, Option<LexFault>) {
                 i += 1;
             }
             if i == s + 1 {
-                return (out, Some(LexFault::LoneBackslash(s)));
+                if strict {
+                    return (out, Some(LexFault::LoneBackslash(s)));
+                }
+                out.push(Tok { k: K::Punct, s, e: i });
+            } else {
+                out.push(Tok { k: K::EscId, s, e: i });
             }
-            out.push(Tok { k: K::EscId, s, e: i });
         } else if c == b'`' {
             i += 1;
             while i < n && is_word(b[i]) {
